@@ -133,6 +133,10 @@ def handle (line : String) : String :=
       if knots.length < p + 2 then "bad-request" else
       s!"ok|{showRats ((List.range (knots.length - p - 1)).map fun j => bspline (knotSeq knots) p j x)}"
     | _, _, _ => "bad-request"
+  | ["knots", p, n, m, k] =>
+    match p.toNat?, n.toNat?, parseNats m, parseRats k with
+    | some p, some n, some m, some k => s!"ok|{showRats (knotVector (openMults p n m) k)}"
+    | _, _, _, _ => "bad-request"
   | ["bernstein", n, x] =>
     match n.toNat?, parseRat x with
     | some n, some x => s!"ok|{showRats ((List.range (n+1)).map fun i => bernstein n i x)}"
